@@ -99,6 +99,8 @@ struct Local {
     fresh_node: bool,
     /// node kinds of a Syn-typed variable ("*" = anything)
     kinds: &'static str,
+    /// immutable variable bound directly to this capture (`let v = @cap`)
+    alias_of: Option<String>,
 }
 
 #[derive(Clone, Debug)]
@@ -698,7 +700,7 @@ impl<'t, 'b> G<'t, 'b> {
         let var = self.fresh_name("e");
         let id = self.id();
         let var_id = self.id();
-        self.frames.push(vec![Local { name: var.clone(), ty: src_elem.clone(), mutable: false, local: true, quant: Quant::Star, binder: true, fresh_node: false, kinds: src_kinds }]);
+        self.frames.push(vec![Local { name: var.clone(), ty: src_elem.clone(), mutable: false, local: true, quant: Quant::Star, binder: true, fresh_node: false, kinds: src_kinds, alias_of: None }]);
         self.attr_used.push(BTreeMap::new());
         self.edges_here.push(vec![]);
         let elem = if &src_elem == elem_ty && self.t.chance(1, 2) {
@@ -799,7 +801,14 @@ impl<'t, 'b> G<'t, 'b> {
             Some(v) => self.static_info(v),
             None => (true, Quant::One),
         };
-        self.frames.last_mut().unwrap().push(Local { name: name.to_string(), ty, mutable, local: local && !mutable, quant, binder: false, fresh_node, kinds: "*" });
+        let (mut kinds, mut alias_of) = ("*", None);
+        if let (Some(Expr::Capture { name: cap, .. }), false) = (value, mutable) {
+            if let Some(c) = self.caps.iter().find(|c| &c.name == cap && c.quant == Quant::One) {
+                kinds = c.kinds;
+                alias_of = Some(c.name.clone());
+            }
+        }
+        self.frames.last_mut().unwrap().push(Local { name: name.to_string(), ty, mutable, local: local && !mutable, quant, binder: false, fresh_node, kinds, alias_of });
     }
 
     fn block(&mut self, depth: usize) -> Vec<Stmt> {
@@ -1072,7 +1081,7 @@ impl<'t, 'b> G<'t, 'b> {
                 let var_id = self.id();
                 let var = self.fresh_name("it");
                 self.push_frame();
-                self.frames.last_mut().unwrap().push(Local { name: var.clone(), ty: elem, mutable: false, local: true, quant: Quant::Star, binder: true, fresh_node: false, kinds: elem_kinds });
+                self.frames.last_mut().unwrap().push(Local { name: var.clone(), ty: elem, mutable: false, local: true, quant: Quant::Star, binder: true, fresh_node: false, kinds: elem_kinds, alias_of: None });
                 self.loop_depth += 1;
                 let body = self.block(depth + 1);
                 self.loop_depth -= 1;
@@ -1237,7 +1246,15 @@ impl<'t, 'b> G<'t, 'b> {
             self.value_ty()
         };
         let mutable = !node_stmt && !self.cfg.fragment && self.t.chance(1, 4);
-        let cap_expr = Expr::Capture { id: self.id(), name: cap.name.clone() };
+        // the scope may be written through an immutable local that holds the capture
+        let aliases: Vec<String> = self.visible().into_iter().filter(|l| l.alias_of.as_deref() == Some(cap.name.as_str())).map(|l| l.name).collect();
+        let cap_expr = if !aliases.is_empty() && self.t.chance(1, 2) {
+            self.features.insert("scoped-def-through-local");
+            let name = aliases[self.t.choose(aliases.len())].clone();
+            Expr::Var { id: self.id(), name }
+        } else {
+            Expr::Capture { id: self.id(), name: cap.name.clone() }
+        };
         let id = self.id();
         let vid = self.id();
         let mut syn_kinds = "*";
@@ -1548,7 +1565,7 @@ impl<'t, 'b> G<'t, 'b> {
         let id = self.id();
         self.in_shorthand_body = true;
         let saved_caps = std::mem::take(&mut self.caps);
-        self.frames = vec![vec![Local { name: var.clone(), ty: arg.clone(), mutable: false, local: false, quant: Quant::One, binder: true, fresh_node: false, kinds: "*" }]];
+        self.frames = vec![vec![Local { name: var.clone(), ty: arg.clone(), mutable: false, local: false, quant: Quant::One, binder: true, fresh_node: false, kinds: "*", alias_of: None }]];
         self.attr_used = vec![BTreeMap::new()];
         self.edges_here = vec![vec![]];
         let n = 1 + self.t.choose(3);
